@@ -51,7 +51,7 @@ pub fn gen_case(r: &mut Prng, tag: &str, allow_panicky_bare: bool, big: bool) ->
     case.pre = regs;
     let prog = Prog::Stmts(stmts);
     let eval = if r.chance(1, 3) {
-        Op::ParseExec { prog, ctx: CtxRef::Slot(0), times: 1 }
+        if case.handlers.len() % 2 == 0 { Op::ExecSole { prog, slot: 0 } } else { Op::ParseExec { prog, ctx: CtxRef::Slot(0), times: 1 } }
     } else {
         Op::Exec { prog, ctx: CtxRef::Slot(0) }
     };
@@ -127,7 +127,7 @@ impl Prop for C07 {
             }
         }
         rt.sample(json!({
-            "program": match &base.pre.last().unwrap() { Op::Exec{prog,..} | Op::ParseExec{prog,..} => prog.text(), _ => String::new() },
+            "program": match &base.pre.last().unwrap() { Op::Exec{prog,..} | Op::ExecSole{prog,..} | Op::ParseExec{prog,..} => prog.text(), _ => String::new() },
             "context": format!("{:?}", base.slots[0]),
             "registrations": base.pre.iter().filter(|o| o.is_reg()).map(crate::props::c13::show_op).collect::<Vec<_>>(),
             "fault_free_history": out.log.iter().map(show_ev).collect::<Vec<_>>(),
